@@ -4,7 +4,8 @@
    Every theorem quantifies over EVERY scenario [sc] (back-off configuration, per-attempt timeout,
    signal, payload, caller deadline, cancel instant, shutdown instant, random draws, resolution of
    simultaneous select branches) and EVERY finite script of backend outcomes (success, transient,
-   permanent, throttle d, partial failure with remainder, shutdown-classified, wrapped, context
+   permanent, throttle d, partial failure with remainder, shutdown-classified, wrapped, COMBINED
+   errors (errors.Join / several %w / multierr) of any of these, nested to any depth; context
    expiry arises from the timeout/deadline/cancel instants).  [steps_of sc script] is the list of
    calls of the exporter function made by the model of retrySender.Send, [verdict_of] the class of
    the error it returns.  [nth_error (steps_of sc script) k = Some st] reads "attempt k is made
@@ -77,6 +78,32 @@ Theorem verdict_is_final : forall sc script k st v,
   nth_error (steps_of sc script) k = Some st -> s_dec st = DStop v ->
   length (steps_of sc script) = S k /\ nth_error (steps_of sc script) (S k) = None /\ verdict_of sc script = v.
 Proof. exact verdict_is_final_l. Qed.
+
+(* "permanent" is decided as errors.As does, over the whole error TREE: an error is permanent iff a
+   permanent layer occurs anywhere in it — under any number of wrappers and inside any member of a
+   combined error (errors.Join, several %w, multierr).  Together with no_attempt_after_verdict: a
+   combined error with a permanent member is never retried. *)
+Theorem permanent_anywhere : forall e, is_permanent e = occurs is_perm_layer e.
+Proof. exact is_permanent_occurs. Qed.
+
+Theorem permanent_in_combination : forall es, is_permanent (EJoin es) = existsb is_permanent es.
+Proof. exact is_permanent_join. Qed.
+
+(* the same for the other classifications made through errors.As: shutdown-classified, throttle
+   (the delay of the FIRST throttle error in depth-first order), partial failure of the request's
+   own signal (the data of the first one) *)
+Theorem shutdown_anywhere : forall e, is_shutdown e = occurs is_shutdown_layer e.
+Proof. exact is_shutdown_occurs. Qed.
+
+Theorem throttle_found_iff_present : forall e,
+  is_some (throttle_of e) = occurs is_throttle_layer e /\
+  (forall d, throttle_of e = Some d -> occursP (fun l => l = LThrottle d) e).
+Proof. exact (fun e => conj (throttle_of_occurs e) (throttle_of_witness e)). Qed.
+
+Theorem partial_found_iff_present : forall s e,
+  is_some (partial_of s e) = occurs (is_partial_layer s) e /\
+  (forall rem, partial_of s e = Some rem -> occursP (fun l => l = LPartial s rem) e).
+Proof. exact (fun s e => conj (partial_of_occurs s e) (partial_of_witness s e)). Qed.
 
 (* ---- clause 3: the wait ------------------------------------------------------------------------------- *)
 
@@ -162,7 +189,7 @@ Proof. exact stop_in_wait_l. Qed.
 Theorem shutdown_error_wraps_last : forall sc script,
   verdict_of sc script = VShutdown ->
   final_is_shutdown sc script = true /\
-  final_err (verdict_of sc script) (last_err (steps_of sc script)) = Some (LShutdown :: last_err (steps_of sc script)).
+  final_err (verdict_of sc script) (last_err (steps_of sc script)) = Some (EWrap LShutdown (last_err (steps_of sc script))).
 Proof. exact shutdown_classified_l. Qed.
 
 (* and it is only ever returned when shutdown really arrived no later than the end of the last wait,
@@ -206,6 +233,11 @@ Print Assumptions retry_within_limits.
 Print Assumptions disabled_single_attempt.
 Print Assumptions no_attempt_after_verdict.
 Print Assumptions verdict_is_final.
+Print Assumptions permanent_anywhere.
+Print Assumptions permanent_in_combination.
+Print Assumptions shutdown_anywhere.
+Print Assumptions throttle_found_iff_present.
+Print Assumptions partial_found_iff_present.
 Print Assumptions wait_lower_bound.
 Print Assumptions wait_envelope.
 Print Assumptions next_start.
